@@ -148,6 +148,55 @@ Theorem C14_unsup_predict_rule :
       (nth s (k_clabel g') 0%nat < k_nclusters g')%nat.
 Proof. exact unsup_query_rule. Qed.
 
+(* ---------- the same with the actual terms E x = exp(-x / constant) ---------- *)
+
+(* [c] is the constant recorded by training (2 * density / 9, C12_pdf); its positivity is the one
+   hypothesis here that is about a training output (it holds as soon as 0 < thr and 0 < one:
+   create_arcs leaves density >= thr or = one; not re-derived in this file).  The unmapped query
+   density then reads  (sum over the k nearest s of exp(-dq s / c)) / k. *)
+Theorem C14_knn_sup_predict_rule_exp :
+  forall (fmax thr one gdens0 eps : R) (k : nat) (labels : list nat) (d e : nat -> nat -> R),
+    let n := length labels in
+    (1 <= k)%nat -> (k <= n)%nat -> 1 <= fmax ->
+    (forall i j, (i < n)%nat -> (j < n)%nat -> i <> j -> 0 <= d i j < fmax) ->
+    (forall i j, (i < n)%nat -> (j < n)%nat -> 0 <= e i j <= 1) ->
+    0 < eps -> 999 <= eps * fmax ->
+    forall (g' : @knn R) (c mn mx : R),
+    knn_sup_final ROps fmax thr one 1000 k labels gdens0 d e = (g', (c, mn, mx)) ->
+    0 < c ->
+    forall dq : nat -> R, (forall j, (j < n)%nat -> 0 <= dq j < fmax) ->
+    let E := fun x => exp (- x / c) in
+    let answer := knn_query ROps fmax eps 1000 E (g', (c, mn, mx)) k dq in
+    knn_prediction_rule fmax eps k n E mn mx g' dq answer /\
+    exists s, answer = Some s /\ (s < n)%nat /\ label_of g' answer = nth s labels 0%nat.
+Proof. exact knn_sup_query_rule_exp. Qed.
+
+Theorem C14_unsup_predict_rule_exp :
+  forall (fmax thr one gdens0 eps : R) (k : nat) (labels : list nat) (d e : nat -> nat -> R),
+    let n := length labels in
+    (1 <= k)%nat -> (k <= n)%nat -> 1 <= fmax ->
+    (forall i j, (i < n)%nat -> (j < n)%nat -> i <> j -> 0 <= d i j < fmax) ->
+    (forall i j, (i < n)%nat -> (j < n)%nat -> 0 <= e i j <= 1) ->
+    0 < eps -> 999 <= eps * fmax ->
+    forall (g' : @knn R) (c mn mx : R),
+    (k <= n - 1)%nat ->
+    unsup_final ROps fmax thr one 1000 k labels gdens0 d e = (g', (c, mn, mx)) ->
+    0 < c ->
+    forall dq : nat -> R, (forall j, (j < n)%nat -> 0 <= dq j < fmax) ->
+    let E := fun x => exp (- x / c) in
+    let answer := knn_query ROps fmax eps 1000 E (g', (c, mn, mx)) k dq in
+    let g'' := propagate_labels g' in
+    knn_prediction_rule fmax eps k n E mn mx g' dq answer /\
+    knn_query ROps fmax eps 1000 E (with_propagated_labels (g', (c, mn, mx))) k dq = answer /\
+    exists s, answer = Some s /\ (s < n)%nat /\
+      let r := nth s (k_root g') 0%nat in
+      (r < n)%nat /\ nth r (k_pred g') None = None /\
+      label_of g'' answer = nth r labels 0%nat /\
+      cluster_of g'' answer = nth s (k_clabel g') 0%nat /\
+      nth s (k_clabel g') 0%nat = nth r (k_clabel g') 0%nat /\
+      (nth s (k_clabel g') 0%nat < k_nclusters g')%nat.
+Proof. exact unsup_query_rule_exp. Qed.
+
 (* ---------- non-vacuity: the three rational samples of C13_pipeline_example_data, k = 1,
    FLOAT_MAX read as 10^6, EPSILON as 1/1000, E x = max(0, 1 - x/2), query at distances 1/4, 3/4, 7/4 ---------- *)
 
